@@ -68,6 +68,7 @@ type Case struct {
 	Clamp  []int    `json:"clamp,omitempty"` // n, lo, hi
 	Sys    *SysIn   `json:"sys,omitempty"`
 	Cfg    *CfgIn   `json:"cfg,omitempty"`
+	Tree   *RT      `json:"tree,omitempty"` // routes: configured routing tree (root first)
 	Queries []Query `json:"queries,omitempty"` // mutesseq | stageseq: questions put to ONE long-lived Intervener / stage
 	YAML   string   `json:"yaml,omitempty"`
 	Want   *Intent  `json:"want,omitempty"`
@@ -1321,6 +1322,9 @@ func TestCheck(t *testing.T) {
 		for i, n := 0, env.N(150, 4); i < n; i++ {
 			cases = append(cases, genCfgCase(r.Fork()))
 		}
+		for i, n := 0, env.N(150, 4); i < n; i++ {
+			cases = append(cases, genRoutesCase(r.Fork()))
+		}
 		for i, n := 0, env.N(300, 6); i < n; i++ {
 			cases = append(cases, genMutesSeqCase(r.Fork()))
 		}
@@ -1352,6 +1356,8 @@ func TestCheck(t *testing.T) {
 			rn.sys(c)
 		case "cfg":
 			rn.cfg(c)
+		case "routes":
+			rn.routes(c)
 		case "mutesseq":
 			rn.mutesSeq(c)
 		case "stageseq":
